@@ -53,6 +53,25 @@ class CallGraph:
                         self.edges[caller].add(callee)
                         self.rev.setdefault(callee, set()).add(caller)
         self.n_edges = n
+        # calls that stay on a trait method declaration (generic callers such as Product<Factor>::power calling
+        # Factor::power) may reach every implementation of that method in the crate
+        trait_items = {}
+        for tpath, tr in crate.traits.items():
+            for it in tr["items"]:
+                trait_items[it["path"]] = (tpath, it["name"])
+        impl_items = {}
+        for im in crate.impls:
+            t = im.get("trait")
+            if not t:
+                continue
+            for it in im["items"]:
+                impl_items.setdefault((t, it["name"]), []).append(owner(it["path"]))
+        for caller in list(self.edges):
+            for callee in list(self.edges[caller]):
+                if callee in trait_items:
+                    for impl_fn in impl_items.get(trait_items[callee], []):
+                        self.edges[caller].add(impl_fn)
+                        self.rev.setdefault(impl_fn, set()).add(caller)
 
     def find(self, suffix):
         hits = [d for d in self.edges if d == suffix or d.endswith("::" + suffix)]
